@@ -229,7 +229,7 @@ pub(crate) mod verif_kani {
         }
     }
 
-    // @harness client_process_packet_step unit=U12 props=C04,C07,C18 tier=quick kind=complete timeout=1500 :: NetcodeClient::process_packet from ANY state: a datagram that does not decode changes no field (no state change, no timer refresh); a payload surfaces only in Connected and only from a decoded Payload packet
+    // @harness client_process_packet_step unit=U12 props=C04,C07,C18 tier=quick kind=complete timeout=1500 :: NetcodeClient::process_packet from ANY state: a datagram that does not decode changes no field (no state change, no timer refresh); a payload surfaces only in Connected and only from a decoded Payload packet; a replayable handshake packet (denied/challenge/response) that the current state ignores moves no timer and no field
     #[kani::proof]
     #[kani::unwind(40)]
     #[kani::stub(crate::packet::Packet::decode, stub_decode)]
@@ -267,6 +267,18 @@ pub(crate) mod verif_kani {
         // a disconnected client is never revived by any packet
         if disc0 {
             assert!(c.disconnect_reason() == reason0 && !surfaced);
+        }
+        // C18: "forged or replayed packets do not postpone a timeout".  ConnectionDenied, Challenge and Response are not replay-protected
+        // (Packet::decode consults the window for KeepAlive/Payload/Disconnect only), so a recorded copy decodes every time it is presented:
+        // such a packet may move the receive timer only in a state whose arm acts on it -- and every such arm leaves that state, so a replay
+        // cannot repeat it.  Everywhere else it is ignored: no timer, no state, no field.
+        let acted = match (kind, st0) { (1, 0) | (1, 1) | (2, 0) => true, _ => false };
+        if ok && kind <= 3 && !acted {
+            assert!(c.last_packet_received_time == recv0 && c.last_packet_send_time == send0 && st1 == st0);
+            assert!(c.challenge_token_sequence == chal0 && c.server_addr_index == idx0 && c.disconnect_reason() == reason0);
+        }
+        if ok && kind <= 3 && acted {
+            assert!(st1 != st0);
         }
         // receiving never touches the nonce counter
         assert!(c.sequence == seq0);
